@@ -19,6 +19,7 @@ import (
 
 const (
 	corrNext  = "C04Next.next: model next = SpecSchedule.Next"
+	corrPNext = "C04Bridge.pnext: model Parse then model Next = Parser.Parse then SpecSchedule.Next"
 	corrCivil = "C04Next.civil: model civil = time.Time accessors"
 	corrDate  = "C04Next.date: model goDate = time.Date"
 	corrEvery = "C04Next.every: model everyNext/everyDelay = ConstantDelaySchedule.Next/Every"
@@ -233,6 +234,10 @@ type item struct {
 	line    string
 	model   string
 	asked   bool
+	// composed path: model Parse then model Next on the spec text (parser-derived cases only)
+	line2  string
+	model2 string
+	asked2 bool
 }
 
 const (
@@ -379,6 +384,27 @@ func (g *group) runNext(it *item, timeouts *int) {
 	}
 	s := it.sp.s
 	it.line = fmt.Sprintf("next sec=%d min=%d hour=%d dom=%d month=%d dow=%d t=%d", s.Second, s.Minute, s.Hour, s.Dom, s.Month, s.Dow, it.t.UnixNano())
+	if it.sp.parsed && it.sp.text != "" {
+		it.line2 = fmt.Sprintf("pnext o=%d z=1 d=none r=%s t=%d", parserOpts, runes(it.sp.text), it.t.UnixNano())
+	}
+}
+
+// parserOpts is theParser's option set as the model's Opts.ofNat expects it.
+const parserOpts = int(cron.Second | cron.Minute | cron.Hour | cron.Dom | cron.Month | cron.Dow | cron.Descriptor)
+
+// runes encodes a string as dot-separated decimal code points ("-" = empty), the parser driver's format.
+func runes(s string) string {
+	if s == "" {
+		return "-"
+	}
+	var b strings.Builder
+	for i, r := range []rune(s) {
+		if i > 0 {
+			b.WriteByte('.')
+		}
+		b.WriteString(strconv.Itoa(int(r)))
+	}
+	return b.String()
 }
 
 func (g *group) runOther(it *item) {
@@ -455,6 +481,7 @@ func (g *group) run(pool chan *lib.Drv) {
 	}
 	lines := []string{}
 	idx := []*item{}
+	second := []bool{}
 	if g.kind != gEvery {
 		lines = append(lines, tableLine(g.table))
 	}
@@ -462,6 +489,12 @@ func (g *group) run(pool chan *lib.Drv) {
 		if it.skipped == "" && it.line != "" {
 			lines = append(lines, it.line)
 			idx = append(idx, it)
+			second = append(second, false)
+			if it.line2 != "" {
+				lines = append(lines, it.line2)
+				idx = append(idx, it)
+				second = append(second, true)
+			}
 		}
 	}
 	if len(idx) == 0 {
@@ -488,8 +521,11 @@ func (g *group) run(pool chan *lib.Drv) {
 		outs = outs[1:]
 	}
 	for i, it := range idx {
-		it.model = outs[i]
-		it.asked = true
+		if second[i] {
+			it.model2, it.asked2 = outs[i], true
+		} else {
+			it.model, it.asked = outs[i], true
+		}
 	}
 }
 
